@@ -54,6 +54,7 @@ def helperTypeOK : Helper → FType → Bool
   | .memorysize, ft => ft == .memorysize
   | .choice, ft => ft == .string
   | .renderStringarray, ft => ft == .stringarray
+  | .renderMap, ft => ft == .map
   | _, _ => true
 
 /-- **table_helper_types** — every row of the template uses a helper that fits its field's type -/
@@ -72,13 +73,23 @@ def typed (x : Ext) : FType → V1 → Bool
   | .duration, .str s => (x.dur s).isSome
   | .memorysize, .int _ => true
   | .stringarray, .strs _ => true
+  | .map, .tbl _ => true
   | _, _ => false
 
+/-- a text is either quoted by `yamlf` or read back by YAML as the same string -/
+def safeStr (fx : Fixes) (x : Ext) (s : String) : Prop := isPlainFx fx s = true → x.yaml s = .str
+
 /-- text the converter writes without quotes is read back as the same string -/
-def safe (x : Ext) : V1 → Prop
-  | .str s => isPlain s = true → x.yaml s = .str
-  | .strs l => ∀ s ∈ l, x.yaml s = .str
+def safe (fx : Fixes) (x : Ext) : V1 → Prop
+  | .str s => safeStr fx x s
+  | .strs l => if fx.items then ∀ s ∈ l, safeStr fx x s else ∀ s ∈ l, x.yaml s = .str
+  | .tbl kv => ∀ p ∈ kv, safeStr fx x p.1 ∧ safeStr fx x p.2
   | _ => True
+
+/-- YAML's core schema as far as the repaired `yamlf` relies on it: a letter followed by letters and
+digits that is not one of the reserved words is a string.  (Checked on every string of every
+generated case by the harness' `yaml` ext lines.) -/
+def coreSchema (x : Ext) : Prop := ∀ s, isPlainFixed s = true → x.yaml s = .str
 
 /-- an explicit zero is given only where zero is what the loader defaults to -/
 def zeroOK (r : Row) (e : Eff) : Prop := isZeroEff r.ftype e = true → r.ldef = e
@@ -93,9 +104,9 @@ theorem gen_units_ok : unitsOK Gen.Convert.memUnits := by
 
 /-! ## `yamlf`, `MemorySize` and the loader -/
 
-theorem yaml_text_roundtrip (x : Ext) (s : String) (h : safe x (.str s)) :
-    yamlOf x (yamlf (.str s)) = .str s := by
-  cases hp : isPlain s
+theorem yaml_text_roundtrip (fx : Fixes) (x : Ext) (s : String) (h : safe fx x (.str s)) :
+    yamlOf x (yamlf fx (.str s)) = .str s := by
+  cases hp : isPlainFx fx s
   · simp [yamlf, yamlOf, hp]
   · simp [yamlf, yamlOf, hp, h hp]
 
@@ -128,37 +139,37 @@ theorem applyDefault_of_zeroOK (r : Row) (e : Eff) (hz : zeroOK r e) :
   · rw [if_neg h]
 
 /-- what `yamlf` writes for a value of the field's type is decoded to that value -/
-theorem decode_yamlf (x : Ext) (ft : FType) (v : V1) (hft : ft ≠ .stringarray)
-    (hv : typed x ft v = true) (hs : safe x v) :
-    decode x ft (yamlOf x (yamlf v)) = expectedBase x ft v := by
-  cases ft <;> cases v <;> simp [typed] at hv hft
+theorem decode_yamlf (fx : Fixes) (x : Ext) (ft : FType) (v : V1) (hft : ft ≠ .stringarray) (hfm : ft ≠ .map)
+    (hv : typed x ft v = true) (hs : safe fx x v) :
+    decode x ft (yamlOf x (yamlf fx v)) = expectedBase x ft v := by
+  cases ft <;> cases v <;> simp [typed] at hv hft hfm
   case string.str s | hostport.str s | url.str s =>
-    rw [yaml_text_roundtrip x s hs]; simp [decode, expectedBase]
+    rw [yaml_text_roundtrip fx x s hs]; simp [decode, expectedBase]
   case int.int n | bool.bool b | defaulttrue.bool b | memorysize.int n =>
     simp [yamlf, yamlOf, decode, expectedBase]
   case percentage.int n =>
     simp [yamlf, yamlOf, decode, expectedBase, hv]
   case duration.str s =>
-    rw [yaml_text_roundtrip x s hs]
+    rw [yaml_text_roundtrip fx x s hs]
     obtain ⟨ns, hns⟩ := Option.isSome_iff_exists.mp hv
     simp [decode, expectedBase, hns]
 
 /-! ## convert_preserves, per helper kind -/
 
 /-- an active line written by `yamlf` is read back as the v1 value -/
-theorem line_preserves (x : Ext) (r : Row) (v : V1)
-    (hh : r.helper ≠ .secondsToDuration) (hft : r.ftype ≠ .stringarray)
-    (hv : typed x r.ftype v = true) (hs : safe x v) (hz : zeroOK r (expected x r v)) :
-    effective x r (.line (yamlf v)) = expected x r v := by
+theorem line_preserves (fx : Fixes) (x : Ext) (r : Row) (v : V1)
+    (hh : r.helper ≠ .secondsToDuration) (hft : r.ftype ≠ .stringarray) (hfm : r.ftype ≠ .map)
+    (hv : typed x r.ftype v = true) (hs : safe fx x v) (hz : zeroOK r (expected x r v)) :
+    effective x r (.line (yamlf fx v)) = expected x r v := by
   rw [expected_of_ne x r v hh] at hz ⊢
-  simp only [effective, decode_yamlf x r.ftype v hft hv hs]
+  simp only [effective, decode_yamlf fx x r.ftype v hft hfm hv hs]
   exact applyDefault_of_zeroOK r _ hz
 
 /-- two values of the field's type that print alike (`_equivalent`) are the same setting -/
-theorem equivalent_expected (x : Ext) (ft : FType) (v d : V1) (hft : ft ≠ .stringarray)
+theorem equivalent_expected (x : Ext) (ft : FType) (v d : V1) (hft : ft ≠ .stringarray) (hfm : ft ≠ .map)
     (hv : typed x ft v = true) (hd : typed x ft d = true) (he : equivalent x v d = true) :
     expectedBase x ft v = expectedBase x ft d := by
-  cases ft <;> cases v <;> cases d <;> simp [typed] at hv hd hft <;>
+  cases ft <;> cases v <;> cases d <;> simp [typed] at hv hd hft hfm <;>
     simp [equivalent, fmtV] at he <;> try (subst he; rfl)
   all_goals (rename_i a b; cases a <;> cases b <;> simp_all)
 
@@ -166,35 +177,36 @@ theorem equivalent_expected (x : Ext) (ft : FType) (v d : V1) (hft : ft ≠ .str
 value is the v1 value: when it differs from the template default it is written and read back,
 when it equals the default the line is omitted and the loader default (= template default,
 `table_defaults_agree`) applies. -/
-theorem convert_preserves_nonDefaultOnly (x : Ext) (r : Row) (v dflt : V1)
-    (hh : r.helper ≠ .secondsToDuration) (hft : r.ftype ≠ .stringarray)
+theorem convert_preserves_nonDefaultOnly (fx : Fixes) (x : Ext) (r : Row) (v dflt : V1)
+    (hh : r.helper ≠ .secondsToDuration) (hft : r.ftype ≠ .stringarray) (hfm : r.ftype ≠ .map)
     (hv : typed x r.ftype v = true) (hd : typed x r.ftype dflt = true)
     (hdef : r.ldef = expected x r dflt)
-    (hs : safe x v) (hz : zeroOK r (expected x r v)) :
-    effective x r (nonDefaultOnly x (some v) dflt) = expected x r v := by
+    (hs : safe fx x v) (hz : zeroOK r (expected x r v)) :
+    effective x r (nonDefaultOnly fx x (some v) dflt) = expected x r v := by
   unfold nonDefaultOnly
   by_cases he : equivalent x v dflt = true
   · simp only [he, if_true, effective, hdef]
     rw [expected_of_ne x r _ hh, expected_of_ne x r _ hh]
-    exact (equivalent_expected x r.ftype v dflt hft hv hd he).symm
+    exact (equivalent_expected x r.ftype v dflt hft hfm hv hd he).symm
   · simp only [he]
-    exact line_preserves x r v hh hft hv hs hz
+    exact line_preserves fx x r v hh hft hfm hv hs hz
 
 /-- **default_omitted** — a v1 value equal to the template default produces no output line, so the
 v2 loader's default applies; by `table_defaults_agree` that is the same value. -/
-theorem default_omitted (x : Ext) (r : Row) (v dflt : V1) (he : equivalent x v dflt = true) :
-    nonDefaultOnly x (some v) dflt = .comment ∧
-      effective x r (nonDefaultOnly x (some v) dflt) = r.ldef := by
+theorem default_omitted (fx : Fixes) (x : Ext) (r : Row) (v dflt : V1) (he : equivalent x v dflt = true) :
+    nonDefaultOnly fx x (some v) dflt = .comment ∧
+      effective x r (nonDefaultOnly fx x (some v) dflt) = r.ldef := by
   simp [nonDefaultOnly, he, effective]
 
 /-- **convert_preserves (nonEmptyString)** — string-typed fields: the empty string is left to the
 loader default, everything else is written and read back. -/
-theorem convert_preserves_nonEmptyString (x : Ext) (r : Row) (v : V1)
+theorem convert_preserves_nonEmptyString (fx : Fixes) (x : Ext) (r : Row) (v : V1)
     (hh : r.helper ≠ .secondsToDuration)
     (hft : r.ftype = .string ∨ r.ftype = .hostport ∨ r.ftype = .url)
-    (hv : typed x r.ftype v = true) (hs : safe x v) (hz : zeroOK r (expected x r v)) :
-    effective x r (nonEmptyString (some v)) = expected x r v := by
+    (hv : typed x r.ftype v = true) (hs : safe fx x v) (hz : zeroOK r (expected x r v)) :
+    effective x r (nonEmptyString fx (some v)) = expected x r v := by
   have hna : r.ftype ≠ .stringarray := by rcases hft with h | h | h <;> simp [h]
+  have hnm : r.ftype ≠ .map := by rcases hft with h | h | h <;> simp [h]
   unfold nonEmptyString
   by_cases he : v = .str ""
   · subst he
@@ -204,27 +216,28 @@ theorem convert_preserves_nonEmptyString (x : Ext) (r : Row) (v : V1)
     rcases hft with h | h | h <;> simp only [h] at hz ⊢ <;>
       exact hz (by simp [expectedBase, isZeroEff])
   · simp only [he, if_false]
-    exact line_preserves x r v hh hna hv hs hz
+    exact line_preserves fx x r v hh hna hnm hv hs hz
 
 /-- **convert_preserves (nonZero)** — a zero value is left to the loader default, everything else
 is written and read back (`*DefaultTrue` flags excluded: see `helperTypeOK`). -/
-theorem convert_preserves_nonZero (x : Ext) (r : Row) (v : V1)
-    (hh : r.helper ≠ .secondsToDuration) (hft : r.ftype ≠ .stringarray) (hdt : r.ftype ≠ .defaulttrue)
+theorem convert_preserves_nonZero (fx : Fixes) (x : Ext) (r : Row) (v : V1)
+    (hh : r.helper ≠ .secondsToDuration) (hft : r.ftype ≠ .stringarray) (hfm : r.ftype ≠ .map)
+    (hdt : r.ftype ≠ .defaulttrue)
     (hne : r.ftype = .duration → v ≠ .str "")
-    (hv : typed x r.ftype v = true) (hs : safe x v) (hz : zeroOK r (expected x r v)) :
-    effective x r (nonZero (some v)) = expected x r v := by
+    (hv : typed x r.ftype v = true) (hs : safe fx x v) (hz : zeroOK r (expected x r v)) :
+    effective x r (nonZero fx (some v)) = expected x r v := by
   unfold nonZero
   by_cases h0 : isZeroV1 v = true
   · simp only [h0, if_true, effective]
     unfold zeroOK at hz
     rw [expected_of_ne x r _ hh] at hz ⊢
-    cases hf : r.ftype <;> cases v <;> simp [hf, typed] at hv hft hdt hne <;>
+    cases hf : r.ftype <;> cases v <;> simp [hf, typed] at hv hft hfm hdt hne <;>
       simp [isZeroV1] at h0 <;> simp only [hf] at hz <;> subst h0 <;>
       first
         | exact absurd rfl hne
         | exact hz (by simp [expectedBase, isZeroEff])
   · simp only [h0]
-    exact line_preserves x r v hh hft hv hs hz
+    exact line_preserves fx x r v hh hft hfm hv hs hz
 
 /-- **convert_preserves (secondsToDuration)** — integer seconds `n` ↦ the duration `n` s. -/
 theorem convert_preserves_secondsToDuration (x : Ext) (r : Row) (n : Nat)
@@ -260,11 +273,11 @@ theorem convert_preserves_memorysize (x : Ext) (units : List (Nat × String × N
 
 /-- **convert_preserves (choice)** — one of the listed choices is written and read back; the default
 is omitted. -/
-theorem convert_preserves_choice (x : Ext) (r : Row) (s dflt : String) (choices : List String)
+theorem convert_preserves_choice (fx : Fixes) (x : Ext) (r : Row) (s dflt : String) (choices : List String)
     (hh : r.helper ≠ .secondsToDuration) (hft : r.ftype = .string)
     (hc : s = dflt ∨ s ∈ choices) (hdef : r.ldef = .str dflt)
-    (hs : safe x (.str s)) (hz : zeroOK r (expected x r (.str s))) :
-    effective x r (choice x (some (.str s)) choices dflt) = expected x r (.str s) := by
+    (hs : safe fx x (.str s)) (hz : zeroOK r (expected x r (.str s))) :
+    effective x r (choice fx x (some (.str s)) choices dflt) = expected x r (.str s) := by
   have he : expected x r (.str s) = .str s := by
     rw [expected_of_ne x r _ hh]; simp [hft, expectedBase]
   unfold choice
@@ -279,32 +292,101 @@ theorem convert_preserves_choice (x : Ext) (r : Row) (s dflt : String) (choices 
       · exact absurd h h1
       · exact List.any_eq_true.mpr ⟨s, h, by simp⟩
     simp only [h1, h2, if_true]
-    exact line_preserves x r (.str s) hh (by simp [hft]) (by simp [hft, typed]) hs hz
+    exact line_preserves fx x r (.str s) hh (by simp [hft]) (by simp [hft]) (by simp [hft, typed]) hs hz
 
 /-- **convert_preserves (renderStringarray)** — a non-empty list is written item by item and read
-back as the same list; an empty list is left to the loader default. -/
-theorem convert_preserves_renderStringarray (x : Ext) (r : Row) (l : List String)
+back as the same list; an empty list is left to the loader default.  (As the code is, items are
+written bare; repaired, `Fixes.items`, they go through `yamlf`.) -/
+theorem convert_preserves_renderStringarray (fx : Fixes) (x : Ext) (r : Row) (l : List String)
     (hh : r.helper ≠ .secondsToDuration) (hft : r.ftype = .stringarray)
-    (hs : safe x (.strs l)) (hz : zeroOK r (expected x r (.strs l))) :
-    effective x r (renderStringarray (some (.strs l))) = expected x r (.strs l) := by
+    (hs : safe fx x (.strs l)) (hz : zeroOK r (expected x r (.strs l))) :
+    effective x r (renderStringarray fx (some (.strs l))) = expected x r (.strs l) := by
   rw [expected_of_ne x r _ hh] at hz ⊢
   simp only [hft, expectedBase] at hz ⊢
   cases l with
   | nil =>
-    have h1 : renderStringarray (some (.strs [])) = .comment := by simp [renderStringarray]
+    have h1 : renderStringarray fx (some (.strs [])) = .comment := by simp [renderStringarray]
     rw [h1]
     simp only [effective]
     exact hz (by simp [hft, isZeroEff])
   | cons a t =>
-    have hall : (a :: t).all (fun s => x.yaml s == .str) = true := by
+    cases hi : fx.items
+    · -- the code as it is
+      have hs' : ∀ s ∈ a :: t, x.yaml s = .str := by simpa [safe, hi] using hs
+      have hall : (a :: t).all (fun s => x.yaml s == .str) = true := by
+        apply List.all_eq_true.mpr
+        intro s hm
+        simp [hs' s hm]
+      have hy : yamlOf x (.items (a :: t)) = .strs (a :: t) := by
+        show (if (a :: t).all (fun s => x.yaml s == .str) = true then YV.strs (a :: t) else YV.bad) = _
+        rw [if_pos hall]
+      have h1 : renderStringarray fx (some (.strs (a :: t))) = .line (.items (a :: t)) := by
+        simp [renderStringarray, hi]
+      rw [h1]
+      simp only [effective]
+      rw [hy]
+      have := applyDefault_of_zeroOK r _ hz
+      rw [hft] at this ⊢
+      exact this
+    · -- repaired: every item through `yamlf`
+      have hs' : ∀ s ∈ a :: t, safeStr fx x s := by simpa [safe, hi] using hs
+      let q := (a :: t).map fun s => (s, !isPlainFx fx s)
+      have hall : q.all (fun p => p.2 || x.yaml p.1 == .str) = true := by
+        apply List.all_eq_true.mpr
+        intro p hm
+        obtain ⟨s, hsm, rfl⟩ := List.mem_map.mp hm
+        cases hp : isPlainFx fx s
+        · simp
+        · simp [hs' s hsm hp]
+      have hq : q.map (·.1) = a :: t := by
+        simp [q, List.map_map, Function.comp_def]
+      have hy : yamlOf x (.qitems q) = .strs (a :: t) := by
+        show (if q.all (fun p => p.2 || x.yaml p.1 == .str) = true then YV.strs (q.map (·.1)) else YV.bad) = _
+        rw [if_pos hall, hq]
+      have h1 : renderStringarray fx (some (.strs (a :: t))) = .line (.qitems q) := by
+        simp [renderStringarray, hi, q]
+      rw [h1]
+      simp only [effective]
+      rw [hy]
+      have := applyDefault_of_zeroOK r _ hz
+      rw [hft] at this ⊢
+      exact this
+
+/-- **convert_preserves (renderMap, repaired)** — with `Fixes.renderMap` a table of strings is written
+entry by entry (key and value through `yamlf`) and read back as the same table; an empty table is
+left to the loader default.  (As the code is, a table makes the converter abort:
+`map_setting_aborts`.) -/
+theorem convert_preserves_renderMap_fixed (fx : Fixes) (x : Ext) (r : Row) (d : Data) (kv : List (String × String))
+    (hfx : fx.renderMap = true)
+    (hh : r.helper ≠ .secondsToDuration) (hft : r.ftype = .map)
+    (hs : safe fx x (.tbl kv)) (hz : zeroOK r (expected x r (.tbl kv))) :
+    effective x r (renderMap fx d r.field (some (.tbl kv))) = expected x r (.tbl kv) := by
+  rw [expected_of_ne x r _ hh] at hz ⊢
+  simp only [hft, expectedBase] at hz ⊢
+  cases kv with
+  | nil =>
+    have h1 : renderMap fx d r.field (some (.tbl [])) = .comment := by simp [renderMap, hfx]
+    rw [h1]
+    simp only [effective]
+    exact hz (by simp [hft, isZeroEff])
+  | cons a t =>
+    have hs' : ∀ p ∈ a :: t, safeStr fx x p.1 ∧ safeStr fx x p.2 := by simpa [safe] using hs
+    let q := (a :: t).map fun p => ((p.1, !isPlainFx fx p.1), (p.2, !isPlainFx fx p.2))
+    have hall : q.all (fun p => (p.1.2 || x.yaml p.1.1 == .str) && (p.2.2 || x.yaml p.2.1 == .str)) = true := by
       apply List.all_eq_true.mpr
-      intro s hm
-      simp [hs s hm]
-    have hy : yamlOf x (.items (a :: t)) = .strs (a :: t) := by
-      show (if (a :: t).all (fun s => x.yaml s == .str) = true then YV.strs (a :: t) else YV.bad) = _
-      rw [if_pos hall]
-    have h1 : renderStringarray (some (.strs (a :: t))) = .line (.items (a :: t)) := by
-      simp [renderStringarray]
+      intro p hm
+      obtain ⟨e, hem, rfl⟩ := List.mem_map.mp hm
+      obtain ⟨h1, h2⟩ := hs' e hem
+      cases hp1 : isPlainFx fx e.1 <;> cases hp2 : isPlainFx fx e.2 <;>
+        simp [hp1, hp2] <;> first | exact h1 hp1 | exact h2 hp2 | exact ⟨h1 hp1, h2 hp2⟩
+    have hq : q.map (fun p => (p.1.1, p.2.1)) = a :: t := by
+      simp [q, List.map_map, Function.comp_def]
+    have hy : yamlOf x (.table q) = .tbl (a :: t) := by
+      show (if q.all (fun p => (p.1.2 || x.yaml p.1.1 == .str) && (p.2.2 || x.yaml p.2.1 == .str)) = true
+        then YV.tbl (q.map fun p => (p.1.1, p.2.1)) else YV.bad) = _
+      rw [if_pos hall, hq]
+    have h1 : renderMap fx d r.field (some (.tbl (a :: t))) = .line (.table q) := by
+      simp [renderMap, hfx, q]
     rw [h1]
     simp only [effective]
     rw [hy]
@@ -314,13 +396,13 @@ theorem convert_preserves_renderStringarray (x : Ext) (r : Row) (l : List String
 
 /-- a setting that is absent from the v1 file is left to the v2 loader's default by every helper
 that carries a value -/
-theorem absent_keeps_default (x : Ext) (units : List (Nat × String × Nat)) (r : Row) (d : Data)
+theorem absent_keeps_default (fx : Fixes) (x : Ext) (units : List (Nat × String × Nat)) (r : Row) (d : Data)
     (hf : fetch d r.key = none)
     (hh : r.helper = .nonDefaultOnly ∨ r.helper = .nonEmptyString ∨ r.helper = .nonZero ∨
       r.helper = .secondsToDuration ∨ r.helper = .memorysize ∨ r.helper = .choice ∨
       r.helper = .renderStringarray)
     (ha : r.helper = .nonDefaultOnly → r.arg.isSome) :
-    effective x r (convertRow x units d r) = r.ldef := by
+    effective x r (convertRow fx x units d r) = r.ldef := by
   unfold convertRow
   rcases hh with h | h | h | h | h | h | h <;> simp only [h, hf]
   · obtain ⟨a, ha'⟩ := Option.isSome_iff_exists.mp (ha h)
@@ -344,29 +426,34 @@ def rowOK (x : Ext) (r : Row) : Prop :=
   (r.helper = .nonDefaultOnly → ∃ a, r.arg = some a ∧ typed x r.ftype a = true ∧ r.ldef = expected x r a) ∧
   (r.helper = .choice → r.ldef = .str (argStr r.arg))
 
+/-- the helpers that carry a value (`renderMap` only once it is repaired) -/
+def carries (fx : Fixes) (h : Helper) : Prop :=
+  h = .nonDefaultOnly ∨ h = .nonEmptyString ∨ h = .nonZero ∨ h = .secondsToDuration ∨
+  h = .memorysize ∨ h = .choice ∨ h = .renderStringarray ∨ (h = .renderMap ∧ fx.renderMap = true)
+
 /-- **convert_preserves_partial** — for every row of the conversion table that carries a value, every v1
 value the row can carry, written anywhere `_fetch` finds it: the value the v2 loader ends up with
 is the v1 value, provided unquoted text survives YAML (`safe`) and an explicit zero is only given
 where zero is the default (`zeroOK`).  Without these two hypotheses the statement is false
 (`full_statement_refuted`). -/
-theorem convert_preserves_partial (x : Ext) (units : List (Nat × String × Nat)) (hu : unitsOK units)
+theorem convert_preserves_partial (fx : Fixes) (x : Ext) (units : List (Nat × String × Nat)) (hu : unitsOK units)
     (r : Row) (d : Data) (v : V1)
-    (hk : r.helper = .nonDefaultOnly ∨ r.helper = .nonEmptyString ∨ r.helper = .nonZero ∨
-      r.helper = .secondsToDuration ∨ r.helper = .memorysize ∨ r.helper = .choice ∨
-      r.helper = .renderStringarray)
+    (hk : carries fx r.helper)
     (hr : rowOK x r) (hf : fetch d r.key = some v) (hv : validFor x r v)
-    (hs : safe x v) (hz : zeroOK r (expected x r v)) :
-    effective x r (convertRow x units d r) = expected x r v := by
+    (hs : safe fx x v) (hz : zeroOK r (expected x r v)) :
+    effective x r (convertRow fx x units d r) = expected x r v := by
   obtain ⟨hok, hnd, hch⟩ := hr
   unfold convertRow
-  rcases hk with h | h | h | h | h | h | h <;> simp only [h, hf] <;>
+  rcases hk with h | h | h | h | h | h | h | ⟨h, hfx⟩ <;> simp only [h, hf] <;>
     simp only [h, validFor] at hv <;> simp only [h, helperTypeOK] at hok
   · -- nonDefaultOnly
     obtain ⟨a, ha, hta, hda⟩ := hnd h
     simp only [ha]
     have hft : r.ftype ≠ .stringarray := by
       intro hc; simp [hc] at hok
-    exact convert_preserves_nonDefaultOnly x r v a (by simp [h]) hft hv.1 hta hda hs hz
+    have hfm : r.ftype ≠ .map := by
+      intro hc; simp [hc] at hok
+    exact convert_preserves_nonDefaultOnly fx x r v a (by simp [h]) hft hfm hv.1 hta hda hs hz
   · -- nonEmptyString
     have hft : r.ftype = .string ∨ r.ftype = .hostport ∨ r.ftype = .url := by
       have : (r.ftype = .string ∨ r.ftype = .hostport) ∨ r.ftype = .url := by
@@ -375,11 +462,12 @@ theorem convert_preserves_partial (x : Ext) (units : List (Nat × String × Nat)
       · exact Or.inl h
       · exact Or.inr (Or.inl h)
       · exact Or.inr (Or.inr h)
-    exact convert_preserves_nonEmptyString x r v (by simp [h]) hft hv.1 hs hz
+    exact convert_preserves_nonEmptyString fx x r v (by simp [h]) hft hv.1 hs hz
   · -- nonZero
     have h1 : r.ftype ≠ .stringarray := by intro hc; simp [hc] at hok
     have h2 : r.ftype ≠ .defaulttrue := by intro hc; simp [hc] at hok
-    exact convert_preserves_nonZero x r v (by simp [h]) h1 h2 hv.2 hv.1 hs hz
+    have h3 : r.ftype ≠ .map := by intro hc; simp [hc] at hok
+    exact convert_preserves_nonZero fx x r v (by simp [h]) h1 h3 h2 hv.2 hv.1 hs hz
   · -- secondsToDuration
     obtain ⟨n, rfl⟩ := hv
     exact convert_preserves_secondsToDuration x r n h (by simpa using hok) hz
@@ -390,25 +478,32 @@ theorem convert_preserves_partial (x : Ext) (units : List (Nat × String × Nat)
     exact convert_preserves_memorysize x units hu r _ (by simp [h]) hft hz
   · -- choice
     obtain ⟨s, rfl, hc⟩ := hv
-    exact convert_preserves_choice x r s (argStr r.arg) r.choices (by simp [h]) (by simpa using hok) hc
+    exact convert_preserves_choice fx x r s (argStr r.arg) r.choices (by simp [h]) (by simpa using hok) hc
       (hch h) hs hz
   · -- renderStringarray
     have hft : r.ftype = .stringarray := by simpa using hok
     obtain ⟨hty, _⟩ := hv
     cases v <;> simp [hft, typed] at hty
-    exact convert_preserves_renderStringarray x r _ (by simp [h]) hft hs hz
+    exact convert_preserves_renderStringarray fx x r _ (by simp [h]) hft hs hz
+  · -- renderMap (repaired)
+    have hft : r.ftype = .map := by simpa using hok
+    obtain ⟨hty, _⟩ := hv
+    cases v <;> simp [hft, typed] at hty
+    exact convert_preserves_renderMap_fixed fx x r d _ hfx (by simp [h]) hft hs hz
 
-/-! ## the statement at full strength, and why it fails -/
+/-! ## the statement at full strength: refuted for the code as it is, proved for the repairs -/
 
-/-- The property as stated, for one setting: every valid v1 value of a row is the effective v2 value. -/
-def FullStatement : Prop :=
+/-- The property as stated, for one setting: every valid v1 value of a row is the effective v2
+value.  YAML is assumed to follow its core schema (`coreSchema`), and the loader's own
+zero-means-default rule is granted (`zeroOK`: that divergence is in the loader, not the converter). -/
+def FullStatement (fx : Fixes) : Prop :=
   ∀ (x : Ext) (units : List (Nat × String × Nat)) (r : Row) (d : Data) (v : V1),
-    unitsOK units →
+    coreSchema x → unitsOK units →
     (r.helper = .nonDefaultOnly ∨ r.helper = .nonEmptyString ∨ r.helper = .nonZero ∨
       r.helper = .secondsToDuration ∨ r.helper = .memorysize ∨ r.helper = .choice ∨
-      r.helper = .renderStringarray) →
-    rowOK x r → fetch d r.key = some v → validFor x r v →
-    effective x r (convertRow x units d r) = expected x r v
+      r.helper = .renderStringarray ∨ r.helper = .renderMap) →
+    rowOK x r → fetch d r.key = some v → validFor x r v → zeroOK r (expected x r v) →
+    effective x r (convertRow fx x units d r) = expected x r v
 
 /-- YAML as far as the witnesses need it: `true` is a boolean, `*` is not a scalar at all. -/
 def wx : Ext where
@@ -416,6 +511,14 @@ def wx : Ext where
   dur := fun s => if s = "0s" then some 0 else if s = "1m" then some 60000000000 else none
   fmtNat := fun _ => "n"
   lower := id
+
+theorem wx_coreSchema : coreSchema wx := by
+  intro s hs
+  by_cases h1 : s = "true"
+  · subst h1; revert hs; decide
+  · by_cases h2 : s = "*"
+    · subst h2; revert hs; decide
+    · simp [wx, h1, h2]
 
 /-- `General.DatasetPrefix` (alphanumeric string, default "") -/
 def wRowPrefix : Row :=
@@ -436,35 +539,99 @@ def wRowKeys : Row :=
     helper := .renderStringarray, arg := some (.str "your-key-goes-here"), choices := [], cond := .bad,
     ftype := .stringarray, ldef := .strs [], argEff := .str "your-key-goes-here" }
 
+/-- `Specialized.AdditionalAttributes` -/
+def wRowAttrs : Row :=
+  { group := "Specialized", field := "AdditionalAttributes",
+    key := ⟨"AdditionalAttributes", [], "AdditionalAttributes"⟩,
+    helper := .renderMap, arg := some (.str "ClusterName:MyCluster"), choices := [], cond := .bad,
+    ftype := .map, ldef := .tbl [], argEff := .str "ClusterName:MyCluster" }
+
 /-- **full_statement_refuted** — witness: the valid v1 setting `DatasetPrefix = "true"` is written
 as `DatasetPrefix: true`, read by YAML as a boolean, and the v2 validator refuses the file. -/
-theorem full_statement_refuted : ¬ FullStatement := by
+theorem full_statement_refuted : ¬ FullStatement {} := by
   intro h
-  have := h wx [] wRowPrefix [("DatasetPrefix", .val (.str "true"))] (.str "true")
+  have := h wx [] wRowPrefix [("DatasetPrefix", .val (.str "true"))] (.str "true") wx_coreSchema
     (by intro u hu; cases hu) (Or.inl rfl)
     ⟨by decide, by intro _; exact ⟨.str "", rfl, by decide, by decide⟩, by intro h; cases h⟩
-    (by decide) ⟨by decide, by intro h; cases h⟩
+    (by decide) ⟨by decide, by intro h; cases h⟩ (by intro h; revert h; decide)
   revert this
   decide
 
-/-- second witness (the loader, not the converter): an explicit `"0s"` comes back as the default -/
+/-- second witness (the loader, not the converter; no repair proposed): an explicit `"0s"` comes
+back as the default -/
 theorem explicit_zero_reverts :
-    effective wx wRowIdle (convertRow wx [] [("GRPCServerParameters", .grp [("MaxConnectionIdle", .str "0s")])] wRowIdle)
+    effective wx wRowIdle (convertRow {} wx [] [("GRPCServerParameters", .grp [("MaxConnectionIdle", .str "0s")])] wRowIdle)
       = .dur 60000000000 ∧
     expected wx wRowIdle (.str "0s") = .dur 0 := by decide
 
-/-- third witness: the v1 default `APIKeys = ["*"]` is written as `- *`, which is not YAML -/
+/-- third witness: the v1 default `APIKeys = ["*"]` is written as `- *`, which is not YAML; with
+`Fixes.items` alone it is quoted and read back -/
 theorem star_key_unreadable :
-    effective wx wRowKeys (convertRow wx [] [("APIKeys", .val (.strs ["*"]))] wRowKeys) = .invalid ∧
-    expected wx wRowKeys (.strs ["*"]) = .strs ["*"] := by decide
+    effective wx wRowKeys (convertRow {} wx [] [("APIKeys", .val (.strs ["*"]))] wRowKeys) = .invalid ∧
+    expected wx wRowKeys (.strs ["*"]) = .strs ["*"] ∧
+    effective wx wRowKeys (convertRow { items := true } wx [] [("APIKeys", .val (.strs ["*"]))] wRowKeys) = .strs ["*"] := by
+  decide
+
+/-- fourth witness: a v1 `AdditionalAttributes` table makes `renderMap` panic (the converter exits
+without a file); with `Fixes.renderMap` it is carried over -/
+theorem map_setting_aborts :
+    convertRow {} wx [] [("AdditionalAttributes", .val (.tbl [("ClusterName", "MyCluster")]))] wRowAttrs = .panic ∧
+    effective wx wRowAttrs (convertRow { renderMap := true } wx []
+      [("AdditionalAttributes", .val (.tbl [("ClusterName", "MyCluster")]))] wRowAttrs) = .tbl [("ClusterName", "MyCluster")] := by
+  decide
+
+/-- with the repaired `yamlf`, whatever is left unquoted is read back as a string -/
+theorem safeStr_of_fixed (fx : Fixes) (x : Ext) (hx : coreSchema x) (hfx : fx.yamlf = true) (s : String) :
+    safeStr fx x s := by
+  intro hp
+  simp only [isPlainFx, hfx, if_true] at hp
+  exact hx s hp
+
+/-- **scalar_statement_fixed** — `Fixes.yamlf` alone makes every scalar, list and (given the other
+two repairs) table value safe: the hypothesis `safe` of `convert_preserves_partial` is discharged. -/
+theorem safe_of_fixed (fx : Fixes) (x : Ext) (hx : coreSchema x) (hy : fx.yamlf = true)
+    (hi : fx.items = true) (v : V1) : safe fx x v := by
+  cases v with
+  | str s => exact safeStr_of_fixed fx x hx hy s
+  | strs l => simp only [safe, hi, if_true]; intro s _; exact safeStr_of_fixed fx x hx hy s
+  | tbl kv => intro p _; exact ⟨safeStr_of_fixed fx x hx hy p.1, safeStr_of_fixed fx x hx hy p.2⟩
+  | int n => trivial
+  | bool b => trivial
+  | flt s => trivial
+
+/-- scalar settings need only the `yamlf` repair -/
+theorem safe_scalar_of_fixed (fx : Fixes) (x : Ext) (hx : coreSchema x) (hy : fx.yamlf = true) (s : String) :
+    safe fx x (.str s) := safeStr_of_fixed fx x hx hy s
+
+/-- **full_statement_fixed** — with the repaired `yamlf` (0001), `renderStringarray` (0002) and
+`renderMap` (0004) the statement holds at full strength for every row and every valid v1 value. -/
+theorem full_statement_fixed (fx : Fixes) (hy : fx.yamlf = true) (hi : fx.items = true)
+    (hm : fx.renderMap = true) : FullStatement fx := by
+  intro x units r d v hx hu hk hr hf hv hz
+  have hc : carries fx r.helper := by
+    rcases hk with h | h | h | h | h | h | h | h
+    · exact Or.inl h
+    · exact Or.inr (Or.inl h)
+    · exact Or.inr (Or.inr (Or.inl h))
+    · exact Or.inr (Or.inr (Or.inr (Or.inl h)))
+    · exact Or.inr (Or.inr (Or.inr (Or.inr (Or.inl h))))
+    · exact Or.inr (Or.inr (Or.inr (Or.inr (Or.inr (Or.inl h)))))
+    · exact Or.inr (Or.inr (Or.inr (Or.inr (Or.inr (Or.inr (Or.inl h))))))
+    · exact Or.inr (Or.inr (Or.inr (Or.inr (Or.inr (Or.inr (Or.inr ⟨h, hm⟩))))))
+  exact convert_preserves_partial fx x units hu r d v hc hr hf hv (safe_of_fixed fx x hx hy hi v) hz
 
 /-! Non-vacuity of `convert_preserves_partial`: concrete rows and values, evaluated by the kernel. -/
-example : effective wx wRowPrefix (convertRow wx [] [("DatasetPrefix", .val (.str "prod1"))] wRowPrefix) = .str "prod1" := by decide
-example : effective wx wRowPrefix (convertRow wx [] [("DatasetPrefix", .val (.str "my-team"))] wRowPrefix) = .str "my-team" := by decide
-example : convertRow wx [] [("DatasetPrefix", .val (.str "my-team"))] wRowPrefix = .line (.text "my-team" true) := by decide
-example : convertRow wx [] [("DatasetPrefix", .val (.str "prod1"))] wRowPrefix = .line (.text "prod1" false) := by decide
-example : convertRow wx [] [("GRPCServerParameters", .grp [("MaxConnectionIdle", .str "1m")])] wRowIdle = .comment := by decide
-example : effective wx wRowKeys (convertRow wx [] [("APIKeys", .val (.strs ["abc", "def"]))] wRowKeys) = .strs ["abc", "def"] := by decide
+example : effective wx wRowPrefix (convertRow {} wx [] [("DatasetPrefix", .val (.str "prod1"))] wRowPrefix) = .str "prod1" := by decide
+example : effective wx wRowPrefix (convertRow {} wx [] [("DatasetPrefix", .val (.str "my-team"))] wRowPrefix) = .str "my-team" := by decide
+example : convertRow {} wx [] [("DatasetPrefix", .val (.str "my-team"))] wRowPrefix = .line (.text "my-team" true) := by decide
+example : convertRow {} wx [] [("DatasetPrefix", .val (.str "prod1"))] wRowPrefix = .line (.text "prod1" false) := by decide
+example : convertRow {} wx [] [("DatasetPrefix", .val (.str "12345"))] wRowPrefix = .line (.text "12345" false) := by decide
+example : convertRow { yamlf := true } wx [] [("DatasetPrefix", .val (.str "12345"))] wRowPrefix = .line (.text "12345" true) := by decide
+example : convertRow { yamlf := true } wx [] [("DatasetPrefix", .val (.str "True"))] wRowPrefix = .line (.text "True" true) := by decide
+example : effective wx wRowPrefix (convertRow { yamlf := true } wx [] [("DatasetPrefix", .val (.str "true"))] wRowPrefix) = .str "true" := by decide
+example : convertRow { yamlf := true } wx [] [("DatasetPrefix", .val (.str "prod1"))] wRowPrefix = .line (.text "prod1" false) := by decide
+example : convertRow {} wx [] [("GRPCServerParameters", .grp [("MaxConnectionIdle", .str "1m")])] wRowIdle = .comment := by decide
+example : effective wx wRowKeys (convertRow {} wx [] [("APIKeys", .val (.strs ["abc", "def"]))] wRowKeys) = .strs ["abc", "def"] := by decide
 example : yamlOf wx (marshalMem Gen.Convert.memUnits 1500000000) = .memtext 1500000000 := by decide
 example : marshalMem Gen.Convert.memUnits 1500000000 = .mem 1500 1000000 := by decide
 example : marshalMem Gen.Convert.memUnits 2147483648 = .mem 2 1073741824 := by decide
@@ -477,43 +644,47 @@ theorem rowEffs_map (x : Ext) (T : List Row) (f : Row → Out) :
   | nil => rfl
   | cons r rs ih => simp [rowEffs, ih]
 
-/-- "Converting a valid v1 config yields a v2 file that passes v2 validation": whenever every row on
-its own yields something the loader accepts, the loader accepts the file. -/
-def FileStatement : Prop :=
+/-- "Converting a valid v1 config yields a v2 file that passes v2 validation": for a v1 file (no
+`General.ConfigurationVersion`), whenever every row on its own yields something the loader accepts,
+the loader accepts the file. -/
+def FileStatement (fx : Fixes) : Prop :=
   ∀ (x : Ext) (units : List (Nat × String × Nat)) (T : List Row) (dep : List Key) (dg : List String) (d : Data),
-    (∀ r ∈ T, effective x r (convertRow x units d r) ≠ .invalid) →
-    loads x T (convertFile x units T dep dg d) = true
+    isV2 d = false →
+    (∀ r ∈ T, effective x r (convertRow fx x units d r) ≠ .invalid) →
+    loads x T (convertFile fx x units T dep dg d) = true
 
-/-- **deprecated_key_blocks_conversion** — as soon as the v1 file contains a key that
+/-- **deprecated_key_blocks_conversion** — as the code is, as soon as the v1 file contains a key that
 `removeDeprecated` knows (e.g. `InMemCollector.CacheCapacity`), nothing is converted: the output is
 the v1 data written back, which the v2 loader refuses. -/
-theorem deprecated_key_blocks_conversion (x : Ext) (units : List (Nat × String × Nat)) (T : List Row)
+theorem deprecated_key_blocks_conversion (fx : Fixes) (hfx : fx.deprecated = false)
+    (x : Ext) (units : List (Nat × String × Nat)) (T : List Row)
     (dep : List Key) (dg : List String) (d : Data) (k : Key) (hk : k ∈ dep) (hp : (fetch d k).isSome = true) :
-    convertFile x units T dep dg d = .dump ∧ loads x T (convertFile x units T dep dg d) = false := by
+    convertFile fx x units T dep dg d = .dump ∧ loads x T (convertFile fx x units T dep dg d) = false := by
   have h : deprecatedPresent dep dg d = true := by
     unfold deprecatedPresent
     simp only [Bool.or_eq_true]
     exact Or.inl (List.any_eq_true.mpr ⟨k, hk, hp⟩)
-  simp [convertFile, h, loads]
+  simp [convertFile, h, hfx, loads]
 
 /-- **file_statement_refuted** — witness: a v1 file whose only setting is
 `InMemCollector.CacheCapacity` (present in the repo's own `config_complete.1.x.toml`). -/
-theorem file_statement_refuted : ¬ FileStatement := by
+theorem file_statement_refuted : ¬ FileStatement {} := by
   intro h
   have := h wx [] [] [⟨"InMemCollector.CacheCapacity", ["InMemCollector"], "CacheCapacity"⟩] []
-    [("InMemCollector", .grp [("CacheCapacity", .int 1000)])] (by intro r hr; cases hr)
+    [("InMemCollector", .grp [("CacheCapacity", .int 1000)])] (by decide) (by intro r hr; cases hr)
   revert this
   decide
 
-/-- **file_converted_partial** — without a key of a deprecated field in the file, the template is
-executed row by row, and the loader accepts the result whenever it accepts every row. -/
-theorem file_converted_partial (x : Ext) (units : List (Nat × String × Nat)) (T : List Row)
+/-- **file_converted_partial** — when `removeDeprecated` does not take over (no key of a deprecated
+field in the file, or — repaired — the file is not v2), the template is executed row by row, and
+the loader accepts the result whenever it accepts every row. -/
+theorem file_converted_partial (fx : Fixes) (x : Ext) (units : List (Nat × String × Nat)) (T : List Row)
     (dep : List Key) (dg : List String) (d : Data)
-    (hd : deprecatedPresent dep dg d = false)
-    (hr : ∀ r ∈ T, effective x r (convertRow x units d r) ≠ .invalid) :
-    convertFile x units T dep dg d = .rows (T.map (convertRow x units d)) ∧
-    loads x T (convertFile x units T dep dg d) = true := by
-  have hnp : (T.map (convertRow x units d)).any (· == .panic) = false := by
+    (hd : ((!fx.deprecated || isV2 d) && deprecatedPresent dep dg d) = false)
+    (hr : ∀ r ∈ T, effective x r (convertRow fx x units d r) ≠ .invalid) :
+    convertFile fx x units T dep dg d = .rows (T.map (convertRow fx x units d)) ∧
+    loads x T (convertFile fx x units T dep dg d) = true := by
+  have hnp : (T.map (convertRow fx x units d)).any (· == .panic) = false := by
     rw [Bool.eq_false_iff]
     intro hc
     obtain ⟨o, ho, hop⟩ := List.any_eq_true.mp hc
@@ -522,8 +693,9 @@ theorem file_converted_partial (x : Ext) (units : List (Nat × String × Nat)) (
     have := hr r hrm
     rw [hro, hop] at this
     exact this rfl
-  have hc : convertFile x units T dep dg d = .rows (T.map (convertRow x units d)) := by
-    simp [convertFile, hd, hnp]
+  have hc : convertFile fx x units T dep dg d = .rows (T.map (convertRow fx x units d)) := by
+    simp only [convertFile, hd, hnp]
+    simp
   refine ⟨hc, ?_⟩
   rw [hc]
   simp only [loads, rowEffs_map]
@@ -534,6 +706,12 @@ theorem file_converted_partial (x : Ext) (units : List (Nat × String × Nat)) (
   rw [hre] at this
   simpa using this
 
+/-- **file_statement_fixed** — with `removeDeprecated` restricted to v2 input (0003) a v1 file is
+always converted row by row, whatever keys it contains. -/
+theorem file_statement_fixed (fx : Fixes) (hfx : fx.deprecated = true) : FileStatement fx := by
+  intro x units T dep dg d hv2 hr
+  exact (file_converted_partial fx x units T dep dg d (by simp [hfx, hv2]) hr).2
+
 /-! ## rules files -/
 
 /-- the v1 value as a v2 rules value -/
@@ -543,7 +721,7 @@ def rvOf : V1 → RV
   | .bool b => .bool b
   | .strs l => .strs l
   | .flt s => .flt s
-  | .tbl => .null
+  | .tbl _ => .null
 
 /-- the v1 value has the type of the struct field -/
 def kindFits (kind : String) : V1 → Prop
@@ -552,7 +730,7 @@ def kindFits (kind : String) : V1 → Prop
   | .bool _ => kind = "bool" ∨ kind = "any"
   | .strs _ => kind = "strs" ∨ kind = "any"
   | .flt _ => kind = "float" ∨ kind = "any"
-  | .tbl => False
+  | .tbl _ => False
 
 def specialKey (k : String) : Prop := k = "clearfrequencysec" ∨ k = "adjustmentinterval"
 
@@ -639,19 +817,33 @@ theorem rules_preserved (x : Ext) (T : List SField) (S : String) (pre post : Lis
   rw [hfs]
   simp [rules_default_only_for_zero f _ hz]
 
-/-- "a valid v1 condition becomes a v2 condition the validator accepts": its `Value` is not null. -/
-def RulesStatement : Prop :=
+/-- "a valid v1 condition becomes a v2 condition the validator accepts": what is written for its
+`Value` is not `null`. -/
+def RulesStatement (fx : Fixes) : Prop :=
   ∀ (x : Ext) (kvs : List (String × V1)),
     (∃ s, (x.lower "field", V1.str s) ∈ kvs) → (∃ s, (x.lower "operator", V1.str s) ∈ kvs) →
-    fieldValue x sfields "@cond" kvs "Value" ≠ some .null
+    condAccepted ((fieldValue x sfields "@cond" kvs "Value").bind (condValueWritten fx)) = true
 
 /-- **rules_statement_refuted** — witness: the valid v1 condition `field = "x", operator = "exists"`
 has no value; the converter writes `Value: null`, which the v2 rules validator refuses. -/
-theorem rules_statement_refuted : ¬ RulesStatement := by
+theorem rules_statement_refuted : ¬ RulesStatement {} := by
   intro h
   have := h wx [("field", .str "x"), ("operator", .str "exists")] ⟨"x", by decide⟩ ⟨"exists", by decide⟩
   revert this
   decide
+
+/-- **rules_statement_fixed** — with `Value` omitted when nil (0005) no condition is written with a
+null value, whatever the v1 condition looks like. -/
+theorem rules_statement_fixed (fx : Fixes) (hfx : fx.condValue = true) : RulesStatement fx := by
+  intro x kvs _ _
+  cases hv : fieldValue x sfields "@cond" kvs "Value" with
+  | none => simp [condAccepted]
+  | some v =>
+    simp only [Option.bind_some, condValueWritten, hfx, Bool.true_and]
+    by_cases hn : v = .null
+    · subst hn; simp [condAccepted]
+    · have : (v == RV.null) = false := by simpa using hn
+      simp [this, condAccepted, hn]
 
 /-! Non-vacuity for the rules theorems, on the regenerated struct table. -/
 example : convField wx sfields "DynamicSampler" "clearfrequencysec" (.int 60) = .field "ClearFrequency" (.dur 60000000000) := by decide
